@@ -348,13 +348,19 @@ func snapshotTypestate(c *eng.Ctx) {
 		if !listed {
 			_, listed = transfer[topFunc(c, fn)]
 		}
+		lifted := ""
+		if !listed {
+			// the acquiring statement moved into a helper of a listed owner
+			lifted = p.FuncKey(liftTransparent(p, fn))
+			_, listed = transfer[lifted]
+		}
 		okk := deferred || closedAll || listed
 		how := "deferred Close"
 		if closedAll {
 			how = "Close on every path"
 		}
 		if listed && !deferred && !closedAll {
-			how = "ownership transferred: " + transfer[topFunc(c, fn)]
+			how = "ownership transferred: " + transfer[topFunc(c, fn)] + transfer[lifted]
 		}
 		c.Check(okk, "closed:"+key, call, fn, "a snapshot obtained here is closed on every path or handed to a listed owner ("+how+")",
 			"no Close on some path to a return and the function is not a listed owner")
